@@ -374,7 +374,7 @@ func checkC20(c *Ctx, r *Report) {
 		if _, tn := typeNameOf(root.Signature.Recv().Type()); tn != "blackHoleDetector" {
 			continue
 		}
-		calls := findInstrs(f, callPred(writers...))
+		calls := findInstrsIn(f, callPred(writers...))
 		if len(calls) > 0 {
 			nsites += len(calls)
 			r3.guard(f, "call of a state-writing counter method", calls, "!readOnly", notRO, nil)
